@@ -239,3 +239,40 @@ def r9(ctx):
 def r_sib_r_c07_10(ctx):
     from .c12 import r3 as read_side_sections
     read_side_sections(ctx)
+
+
+@rule("R-C07-11", min_instances=2, title="pings are answered in every state of the closing handshake the receive calls can be used in: after the application's own send_close() (waiting for the peer's close frame) a ping still gets exactly one pong with its payload")
+def r11(ctx):
+    from ..models import mk_websocket
+    from ..values import Sym
+    I = Interp(ctx.index, recv_config(extra_stubs={"_core:WebSocket.send": _eff_stub("send"), "_core:WebSocket.pong": _eff_stub("pong")}))
+    loc = ctx.index.loc(ctx.index.func(Q).node)
+    for cf in (FALSE, TRUE):
+        def body(run, cf=cf):
+            ws = mk_websocket(I, run)
+            I.call(run, I.getattr(run, ws, "send_close", None), [], {}, None)   # our close frame goes out first
+            if not [e for e in run.effects if e.name == "send"]:
+                raise AnalysisError("send_close() did not write a close frame on a connected socket")
+            run.memo["@hist_len"] = len(run.effects)
+            return I.call(run, I.getattr(run, ws, "recv_data_frame", None), [cf], {}, None)
+
+        n = 0
+        bad = None
+        for o in ctx.count_paths(I.explore(body)):
+            d = frame_dims(I, o)
+            if not isinstance(d, dict):
+                continue
+            legal_ping = d["opcode"].lo == d["opcode"].hi == 9 and d["fin"].lo == 1 and all(d[r].hi == 0 for r in ("rsv1", "rsv2", "rsv3")) and d["len"].hi <= 125
+            if not legal_ping:
+                continue
+            n += 1
+            pongs = [e for e in o.effects[o.run.memo.get("@hist_len", 0):] if e.name == "pong"]
+            data, _ = _frame_data(I, o)
+            if not (len(pongs) == 1 and data is not None and len(pongs[0].args) == 1 and pongs[0].args[0].key() == data.key()):
+                bad = bad or (o, len(pongs))
+        if n == 0:
+            raise AnalysisError("no legal ping explored after send_close()")
+        ctx.ob(f"{Q}:after-own-close-frame:control_frame={cf.v}:ping-answered", bad is None,
+               f"{n} ping paths after send_close(): one pong with the ping's payload" if bad is None else
+               f"history send_close(); <server ping>: the ping is answered with {bad[1]} pongs -- while this side waits for the peer's close frame pings still have to be answered",
+               loc, {"history": ["send_close()", "<ping>", "recv_data_frame()"], "path": path_text(bad[0])} if bad else None)
